@@ -22,6 +22,8 @@ META = {
 
 def run(ctx, res):
     prog = ctx.prog("K0")
+    import rejects, re
+    rejects.rule_encode_reject_inventory(prog, res, only=re.compile(r'df_msg1(059|065|230)_biases::encode$'))
     ssr.rule_count_fields(prog, res)
     ssr.rule_tables(prog, res)
     ssr.rule_value_flow(prog, res)
